@@ -136,21 +136,18 @@ EXPORT int _vswprintf_s_chk(wchar_t *restrict dest, rsize_t dmax,
         }
     }
 
-    if (unlikely(fmt == NULL)) {
-        invoke_safe_str_constraint_handler("vswprintf_s: fmt is null",
-                                           (void *)dest, ESNULLP);
-        return -(ESNULLP);
-    }
-
     if (unlikely(dmax == 0)) {
         invoke_safe_str_constraint_handler("vswprintf_s: dmax is 0",
                                            (void *)dest, ESZEROL);
         return -(ESZEROL);
     }
+    if (unlikely(fmt == NULL)) {
+        handle_werror(dest, dmax, "vswprintf_s: fmt is null", ESNULLP);
+        return -(ESNULLP);
+    }
 
     if (unlikely(safec_wfmt_has_n(fmt, 0))) {
-        invoke_safe_str_constraint_handler("vswprintf_s: illegal %n",
-                                           (void *)dest, EINVAL);
+        handle_werror(dest, dmax, "vswprintf_s: illegal %n", EINVAL);
         return -(EINVAL);
     }
 
